@@ -533,6 +533,29 @@ func c07Engine(c *ctx) {
 				advance = cs
 			case "Start":
 				start = cs
+			default:
+				// the round-advancing method under another name: BaseParty's implementation replaces the
+				// current round by its NextRound()
+				if impl := c.p.Method("tss", "BaseParty", m.Name()); impl != nil && impl.Blocks != nil && m.Type().(*types.Signature).Params().Len() == 0 && m.Type().(*types.Signature).Results().Len() == 0 {
+					callsNext, storesRound := false, false
+					for _, c2 := range core.Calls(impl) {
+						if mm := core.InvokeMethod(c2); mm != nil && mm.Name() == "NextRound" {
+							callsNext = true
+						}
+					}
+					for _, b := range impl.Blocks {
+						for _, in := range b.Instrs {
+							if st, ok := in.(*ssa.Store); ok {
+								if fr := core.AsFieldAddr(st.Addr); fr != nil && fr.Name == "rnd" {
+									storesRound = true
+								}
+							}
+						}
+					}
+					if callsNext && storesRound {
+						advance = cs
+					}
+				}
 			}
 		}
 		if call, ok := cs.(*ssa.Call); ok && core.Callee(cs) == fn {
